@@ -57,7 +57,7 @@ def _dd_bundles(tier, seed, find, props, comps, widths_small, extra_fams=True, d
         for dd in dds:
             for comp in comps:
                 i += 1
-                b = dict(kind="dd", dd=dd, comp=comp, seed=s, width=",".join(map(str, widths_small)), roots="all", rub=("hslack" if i % 2 else "none"), lb=lbs[i % len(lbs)], hist=(2 if i % 3 == 0 else 0), rev=i % 2, props=props, **fam_main, **lim)
+                b = dict(kind="dd", dd=dd, comp=comp, seed=s, width=",".join(map(str, widths_small)), roots="all", rub=("hslack" if i % 2 else "none"), lb=lbs[(i // 2) % len(lbs)], hist=(2 if i % 3 == 0 else 0), rev=i % 2, props=props, **fam_main, **lim)
                 if viz_all:
                     b["viz_all"] = 1
                 if more:
@@ -103,6 +103,18 @@ def _dd_bundles(tier, seed, find, props, comps, widths_small, extra_fams=True, d
                         if more:
                             b.update(more)
                         out.append(P(**b))
+    # wide layers: three domain values per variable, so that a layer holds three or more nodes below a width of 1 or 2
+    # (a squash then drops / merges SEVERAL nodes whose order by value and by value + rub can differ)
+    wide = dict(n=2, b=3, d=3, setnext=1)
+    for k in range(3 if tier == "quick" else 12):
+        s = base + 800 + k
+        for di, dd in enumerate(dds):
+            for comp in comps:
+                i += 1
+                b = dict(kind="dd", dd=dd, comp=comp, seed=s, width="1,2", roots="0", rub=("hslack" if k % 3 != 2 else "none"), lb=lbs[(k + di) % len(lbs)], hist=0, rev=i % 2, props=props, **wide, **lim)
+                if more:
+                    b.update(more)
+                out.append(P(**b))
     if extra_fams:
         fams = [
             dict(n=4, b=2, d=2, setnext=1),
@@ -118,7 +130,7 @@ def _dd_bundles(tier, seed, find, props, comps, widths_small, extra_fams=True, d
                 for dd in dds:
                     for comp in comps:
                         i += 1
-                        b = dict(kind="dd", dd=dd, comp=comp, seed=s, width="1,2", roots="all", rub=("hslack" if i % 2 else "none"), lb=lbs[i % len(lbs)], hist=(1 if i % 2 == 0 else 0), rev=i % 2, props=props, **fam, **lim)
+                        b = dict(kind="dd", dd=dd, comp=comp, seed=s, width="1,2", roots="all", rub=("hslack" if i % 2 else "none"), lb=lbs[(i // 2) % len(lbs)], hist=(1 if i % 2 == 0 else 0), rev=i % 2, props=props, **fam, **lim)
                         if more:
                             b.update(more)
                         out.append(P(**b))
@@ -202,12 +214,13 @@ def _polls_bundles(tier, seed, props):
     nq = 4 if tier == "quick" else 16
     out = []
     i = 0
-    for fi, fam in enumerate([dict(n=4, b=2, d=2, setnext=1, nsym=5), dict(n=3, b=3, d=2, setnext=1, nsym=5), dict(n=4, b=2, d=2, setnext=0, nsym=5, depth_free=1)]):
+    for fi, fam in enumerate([dict(n=4, b=2, d=2, setnext=1, nsym=5), dict(n=3, b=3, d=2, setnext=1, nsym=5), dict(n=4, b=2, d=2, setnext=0, nsym=5, depth_free=1), dict(n=4, b=3, d=3, setnext=1, nsym=4)]):
+        # (the last family has three values per variable: cut-sets of four and more nodes, i.e. a fringe heap of depth 3)
         for k in range(nq):
             s = base + 300 + 20 * fi + k
             for dd in DD3:
                 i += 1
-                out.append(P(kind="solve", dd=dd, cache=str(i % 2), fringe=("nodup" if (i // 2) % 2 else "simple"), width="1,2", mode="polls", seed=s, rub=("none" if i % 4 == 0 else "hslack"), rev=i % 2, props=props, **fam, **lim))
+                out.append(P(kind="solve", dd=dd, cache=str(i % 2), fringe=("nodup" if (i // 2) % 2 or (fi == 3 and k % 2 == 0) else "simple"), width="1,2", mode="polls", seed=s, rub=("none" if i % 4 == 0 or (fi == 3 and k % 2 == 0) else "hslack"), rev=i % 2, props=props, **fam, **lim))
     return out
 
 
